@@ -446,7 +446,11 @@ Section Skeleton.
             | O =>                                                  (* no answer, no authority *)
               match inspectb (negb nomin && (0 <? lvl)%nat) with
               | left E => rec depth nomin unch (pred lvl) n (ob_level depth nomin unch lvl E)     (* minimized: level++ *)
-              | right _ => Ret RResp
+              | right _ =>
+                (* since 199ba21 a bare NXDOMAIN and an empty NOERROR go through authority() like a denial that shows
+                   its SOA (the DS / DNSKEY fetches of its validation); any other rcode is handed back as it came — the
+                   validation that fetches nothing *)
+                validated (Ret RResp)
               end
             | 1%nat =>                                              (* answer section *)
               match inspectb (negb nomin && (0 <? lvl)%nat) with
